@@ -201,7 +201,7 @@ def gen_contra(tier, rng):
     c = []
     while len(c) < n * 2:
         g = random_solved(rng)
-        kind = len(c) % 6
+        kind = len(c) % 9
         p = remove_to(rng, g, rng.randint(5, 50))
         if kind == 0:       # duplicate clue in a unit (both given)
             u = rng.choice(UNITS); i, j = rng.sample(u, 2)
@@ -236,6 +236,21 @@ def gen_contra(tier, rng):
             e = [i for i in range(81) if p[i] == 0]
             if e:
                 i = rng.choice(e); p[i] = rng.choice([d for d in range(1, 10) if d != g[i]])
+        elif kind == 6:     # a COMPLETE grid with one clue overwritten (every unit fully given: nothing is left to decide)
+            p = list(g); i = rng.randrange(81); p[i] = rng.choice([d for d in range(1, 10) if d != g[i]])
+        elif kind == 7:     # almost complete grid: a few cells open, one clue overwritten inside units that stay fully given
+            p = list(g)
+            opened = rng.sample(range(81), rng.randint(2, 6))
+            for k in opened: p[k] = 0
+            full = [i for i in range(81) if p[i] and all(p[k] for k in PEERS[i])]
+            if full:
+                i = rng.choice(full); p[i] = rng.choice([d for d in range(1, 10) if d != g[i]])
+        elif kind == 8:     # only one band (three rows) given, two vertically adjacent clues of a column exchanged
+            b = rng.randrange(3); p = [0] * 81
+            for r in range(3 * b, 3 * b + 3):
+                for cc in range(9): p[9 * r + cc] = g[9 * r + cc]
+            cc = rng.randrange(9); r = 3 * b + rng.randrange(2)
+            p[9 * r + cc], p[9 * (r + 1) + cc] = p[9 * (r + 1) + cc], p[9 * r + cc]
         else:               # hidden contradiction: a digit that has no place left in a unit
             u = rng.choice(UNITS); d = rng.randint(1, 9)
             p = [0] * 81
